@@ -54,19 +54,23 @@ theorem crun_spec (cap : Nat) (hc : 0 < cap) (h : List (COp ε)) :
       rw [← getLogs_of_inv cap s sp hi]
       exact this
 
-/-- The lock discipline of `core/logging/inmemory_logger.go`, as extracted from the Go source (one Boolean per
-fact; see `Verif/Gen/LockFacts.lean`). -/
+/-- The lock discipline of `core/logging/inmemory_logger.go` that the concurrent theorem needs, as four Booleans.
+They are computed (`Props/C20Code.lean`) from the per-access table `Verif/Gen/RingFacts.lean`, which `go/ringfacts`
+regenerates from the Go source on every run by a flow analysis of the held lock — independent of how the code is
+shaped (helper names, `defer` or explicit unlock, field names). -/
 structure LockFacts where
-  /-- `MemCore.Write`: every access to the cursor cell and the ring lies between `mc.mu.Lock()` and the deferred
-  `mc.mu.Unlock()` -/
+  /-- every *write* of shared ring state (the cursor, the pointer to the shared cursor cell, a slot) — in whichever
+  function of the package, reached from whichever entry point — happens with the shared mutex held in write mode;
+  every value stored into a slot is an object allocated by that very call; no object read out of a slot is modified -/
   write_holds_mu : Bool
-  /-- `MemLogger.GetLogs`: the ring walk (`(*mc.cursor()).Do`) lies between `mc.mu.Lock()` and the deferred
-  `mc.mu.Unlock()` of the root core's mutex -/
+  /-- every *read* of shared ring state (including the walk over all slots) happens with the shared mutex held, in
+  read or write mode (readers only read, so two of them commute; the model treats the read as one atomic step) -/
   getLogs_holds_mu : Bool
-  /-- `MemCore.clone` (the only thing `With` does to ring state): whole body under `mc.mu.Lock()` -/
+  /-- the analysis followed every construct it met (`unknowns = []`), looked at something (a slot write and a walk were
+  found), and every entry point leaves the mutex as it found it -/
   clone_holds_mu : Bool
-  /-- the derived core's mutex *is* the parent's (`mu: mc.mu` in `clone`) and `NewMemLogger` is the only place
-  that allocates a mutex — so all cores of one `MemLogger` lock one and the same mutex -/
+  /-- all cores of a logger lock one mutex: every core built from an existing one takes that one's mutex, a fresh
+  mutex is allocated only where no core exists yet (the constructor), and the core type has exactly one mutex field -/
   derived_shares_mu : Bool
 
 def LockFacts.ok (F : LockFacts) : Bool :=
